@@ -477,6 +477,10 @@ impl Prop for C19 {
                 let game = gamedig::GAMES.get(g.id).unwrap();
                 let mut assignments: Vec<Option<(&'static str, &'static str, String)>> = vec![None];
                 for slot in g.slots {
+                    // (every Unreal 2 query waits for a one-second read timeout: one slot in the quick tier)
+                    if g.id == "killingfloor" && !tier.is_thorough() && *slot != "rule-key" {
+                        continue;
+                    }
                     for (cname, ctext) in CLASSES.iter().skip(1) {
                         assignments.push(Some((slot, cname, sanitize(g.id, slot, ctext))));
                     }
